@@ -7,6 +7,7 @@ import (
 	"fmt"
 	"io"
 	"os"
+	"testing/iotest"
 
 	pk "github.com/Tnze/go-mc/net/packet"
 	"verif/harness/hx"
@@ -108,6 +109,25 @@ func dec(o *hx.Out, cat string, wide bool, b []byte) {
 		val = int64(v)
 	}
 	consumed := len(b) - rd.Len()
+	// the same input from a source that is not a ByteReader and delivers its LAST byte together with
+	// io.EOF (iotest.DataErrReader; compress/flate does this at the end of a stream): same verdict, value, count
+	{
+		rd2 := bytes.NewReader(b)
+		var val2, nn2 int64
+		var err2 error
+		if wide {
+			v := pk.VarLong(prior(o))
+			nn2, err2 = v.ReadFrom(iotest.DataErrReader(plain{rd2}))
+			val2 = int64(v)
+		} else {
+			v := pk.VarInt(prior(o))
+			nn2, err2 = v.ReadFrom(iotest.DataErrReader(plain{rd2}))
+			val2 = int64(v)
+		}
+		if (err == nil) != (err2 == nil) || (err == nil && (val != val2 || nn != nn2)) {
+			o.Fail("C05.dataeof."+op, "input=%s plain: val=%d n=%d err=%v; data+EOF reader: val=%d n=%d err=%v", hx.Hex(b), val, nn, err, val2, nn2, err2)
+		}
+	}
 	line := fmt.Sprintf("%s %s err", op, hx.Hex(b))
 	if err == nil {
 		line = fmt.Sprintf("%s %s ok %d %d %d", op, hx.Hex(b), val, nn, rd.Len())
